@@ -6,7 +6,7 @@
    stated through the exact rational it rounds. *)
 From Coq Require Import ZArith Bool List QArith.
 From Coq Require Import Strings.String Strings.Ascii.
-From YV Require Import Common.Corr Model.DateTime Lemmas.DateTimeLaws Lemmas.DateTimeCivil Gen.DateTimeDecls.
+From YV Require Import Common.Corr Model.DateTime Lemmas.DateTimeLaws Lemmas.DateTimeCivil Lemmas.DateTimeFields Gen.DateTimeDecls.
 Import ListNotations.
 Open Scope Z_scope.
 
@@ -132,6 +132,26 @@ Proof.
                           | conj A (conj B C) => conj A (conj B (conj C (fun R => civil_valid n y m d R H))) end).
 Qed.
 
+(* the inverse direction: the civil date computed for the day number of a real date is that
+   date (every integer year), and real dates of years 1..9999 have day numbers in range *)
+Theorem C20_civil_inverse : forall y m d, 1 <= m <= 12 -> 1 <= d <= days_in_month y m ->
+  civil_from_days (days_from_civil y m d) = (y, m, d) /\
+  (valid_civil y m d = true -> 0 <= days_from_civil y m d < DAYS_TOTAL).
+Proof. exact (fun y m d M D => conj (civil_inverse y m d M D) (days_range y m d)). Qed.
+
+(* datetime(fields..., offset) round-trips through .year/.month/.../.microsecond: it exists exactly
+   for real dates and clock readings, is in range, has the given offset, and every field property
+   gives the field it was built from - at ANY offset *)
+Theorem C20_fields_roundtrip : forall y m d h mi s us o,
+  (valid_civil y m d = true -> valid_clock h mi s us = true ->
+   exists x, eval (OpBuild y m d h mi s us o) = VDt x /\ off x = o /\ valid_hdt (Naive (wall x)) = true /\
+     eval (OpField FYear (Aware x)) = VInt y /\ eval (OpField FMonth (Aware x)) = VInt m /\
+     eval (OpField FDay (Aware x)) = VInt d /\ eval (OpField FHour (Aware x)) = VInt h /\
+     eval (OpField FMinute (Aware x)) = VInt mi /\ eval (OpField FSecond (Aware x)) = VInt s /\
+     eval (OpField FMicrosecond (Aware x)) = VInt us) /\
+  (valid_civil y m d && valid_clock h mi s us = false -> eval (OpBuild y m d h mi s us o) = VErr RangeErr).
+Proof. exact (fun y m d h mi s us o => conj (build_then_fields y m d h mi s us o) (build_invalid y m d h mi s us o)). Qed.
+
 Theorem C20_fields_determine_reading : forall h,
   (wall_of_fields (dt_field FYear (hwall h)) (dt_field FMonth (hwall h)) (dt_field FDay (hwall h))
                   (dt_field FHour (hwall h)) (dt_field FMinute (hwall h)) (dt_field FSecond (hwall h))
@@ -215,3 +235,5 @@ Print Assumptions C20_naive_is_utc.
 Print Assumptions C20_historic_refuted.
 Print Assumptions C20_civil_roundtrip.
 Print Assumptions C20_fields_determine_reading.
+Print Assumptions C20_civil_inverse.
+Print Assumptions C20_fields_roundtrip.
